@@ -7,7 +7,7 @@
 From Coq Require Import List Arith ZArith Bool Reals.
 From T4V Require Import Base.Scalar C07.Model C07.ProofsAlgebra C07.ProofsComb C07.ProofsMain
   C07.ProofsGeom C07.ProofsExample C07.ProofsDomain C07.ProofsRhp C07.ModelDevelop C07.ProofsDevelop
-  C07.ProofsErrors C07.LinkC03 C07.ProofsCaps C07.ProofsFlip C07.LinkC04.
+  C07.ProofsErrors C07.LinkC03 C07.ProofsCaps C07.ProofsFlip C07.ProofsFlipSet C07.LinkC04.
 Import ListNotations.
 Open Scope R_scope.
 
@@ -534,6 +534,27 @@ Theorem C07_flipped_sense_lattice_error :
   hexLatticeBaseVectors RS surfs = Err ELattice.
 Proof. exact flipped_sense_lattice_error. Qed.
 
+(* ANY set of flipped side senses (fl = table of the six positions): the
+   dictionary of hexSortSides holds exactly 6 - (number of flipped senses)
+   intersections — all 48 orders x 64 subsets by vm_compute on top of the per-pair
+   geometry — hence LatticeError as soon as one sense is wrong; never a wrong
+   set of base vectors, never the endless loop *)
+Theorem C07_flipped_set_lattice_error :
+  forall (c u : rvec) (w : nat -> rvec) (l : list nat) (surfs : list rsurf) (fl : list bool),
+  In l all_listings -> In fl (bool_lists 6) ->
+  (forall i, (i < 6)%nat -> carries u w (pl surfs i) (side_at l i)) ->
+  (forall i, (i < 6)%nat ->
+     sd surfs i = (if nth i fl false then - planeSide RS c (pl surfs i) else planeSide RS c (pl surfs i))%Z /\
+     sd surfs i <> 0%Z) ->
+  (forall k, wv w (k + 3) = vsub (vscale 2 c) (wv w k)) ->
+  ((forall k, 0 < det3 (vsub (wv w (k + 1)) (wv w k)) (vsub (wv w (k + 2)) (wv w (k + 1))) u) \/
+   (forall k, det3 (vsub (wv w (k + 1)) (wv w k)) (vsub (wv w (k + 2)) (wv w (k + 1))) u < 0)) ->
+  (List.length surfs = 6%nat \/ List.length surfs = 8%nat) ->
+  (exists ca, sort_pairs (hex_adjf RS (firstn 6 surfs)) hex_pairs = Ok ca /\
+              count_some ca = (6 - List.length (filter (fun k => nth k fl false) (seq 0 6)))%nat) /\
+  (existsb (fun k => nth k fl false) (seq 0 6) = true -> hexLatticeBaseVectors RS surfs = Err ELattice).
+Proof. exact flipped_set_lattice_error. Qed.
+
 (* ---------- link with C04 (coordinate transformations) ---------- *)
 
 (* A hexagonal prism under TRCL / a TRn on its plane cards.  moved_surfs o b is
@@ -590,8 +611,8 @@ Print Assumptions C07_family_base_vectors.
 
 (* error behaviour outside the family of the main theorem *)
 Theorem C07_family_errors :
-  ltac:(let t := type of (conj C07_base_vectors_wrong_count (conj C07_intersection_error_iff (conj C07_sort_sides_outcomes (conj C07_base_vectors_parallel_planes (conj C07_collinear_sides_parallel (conj C07_caps_parallel_to_axis C07_flipped_sense_lattice_error)))))) in exact t).
-Proof. exact (conj C07_base_vectors_wrong_count (conj C07_intersection_error_iff (conj C07_sort_sides_outcomes (conj C07_base_vectors_parallel_planes (conj C07_collinear_sides_parallel (conj C07_caps_parallel_to_axis C07_flipped_sense_lattice_error)))))). Qed.
+  ltac:(let t := type of (conj C07_base_vectors_wrong_count (conj C07_intersection_error_iff (conj C07_sort_sides_outcomes (conj C07_base_vectors_parallel_planes (conj C07_collinear_sides_parallel (conj C07_caps_parallel_to_axis (conj C07_flipped_sense_lattice_error C07_flipped_set_lattice_error))))))) in exact t).
+Proof. exact (conj C07_base_vectors_wrong_count (conj C07_intersection_error_iff (conj C07_sort_sides_outcomes (conj C07_base_vectors_parallel_planes (conj C07_collinear_sides_parallel (conj C07_caps_parallel_to_axis (conj C07_flipped_sense_lattice_error C07_flipped_set_lattice_error))))))). Qed.
 Print Assumptions C07_family_errors.
 
 (* statements that import another property (C06: develop_lattice; C03: rhp) *)
